@@ -264,6 +264,12 @@ def check_case(case, ctx):
             return
         tmp = os.environ.get("TMPDIR", "/tmp")
         path = os.path.join(tmp, f"c18_{os.getpid()}_{ctx.evaluations}.txt")
+        if ctx.evaluations % 3 == 0:
+            # a bare file name / a relative path with a folder, resolved against the current directory
+            os.chdir(tmp)
+            os.makedirs(os.path.join(tmp, "sub"), exist_ok=True)
+            path = os.path.basename(path) if ctx.evaluations % 2 else os.path.join("sub", os.path.basename(path))
+            ctx.count("relative_paths")
         if os.path.exists(path):
             os.remove(path)
         sub = dict(case)
